@@ -40,3 +40,5 @@ SPEC = {'id': 'C15',
                "by the new coordinator. Correspondence incl. failovers in every phase; implementation-side oracle compares the old coordinator's memory with "
                'restoreGroupState(store) and the first replies after failover. Session/rebalance timeouts lost by InMemoryStore.cloneConsumerGroup are outside '
                'this view (C17).'}
+SPEC['assumptions'].append("the new coordinator loads a group lazily, on the first request that names it (loadGroupIfMissing); until then its cleanup ticks do not see the group (modelled: Failover empties memory, every request starts with load). C15's statement is about what the new coordinator reports once asked, which is what the theorems cover")
+SPEC['level_text'] += " The generator regularly fails over immediately after an operation that removed a member (cleanup expiry, leave), the point where a missing persist shows as a view difference."
